@@ -293,3 +293,17 @@ func RMWForms() string {
 	captured *= 5
 	return fmt.Sprint(c.n, c.bits, c.s, c.list, pkgCount, captured)
 }
+
+// SelectReturns: a select whose every case returns is the last statement of
+// the function (a terminating statement; its rewritten form must be one too).
+func SelectReturns() int {
+	a := make(chan int, 1)
+	b := make(chan int)
+	a <- 41
+	select {
+	case v := <-a:
+		return v + 1
+	case <-b:
+		return 2
+	}
+}
